@@ -103,6 +103,12 @@ if [ "$ID" = "selftest-determinism" ]; then
 fi
 
 COMMON=( -worker "$SCR/simworld" -workers "$WORKERS" )
+if [ -f "$SCR/fresh_mode" ]; then
+  echo "check.sh: the MAC registry has an unexpected shape: no reset hook, every seed runs in its own worker process"
+  COMMON+=( -fresh )
+  # a process per seed costs ~30 ms: fewer runs in the quick tier
+  [ "$RUNS" -gt 3000 ] && RUNS=3000
+fi
 if [ "$MODE" = "replay" ]; then
   [ -f "$ARG" ] || fail2 "replay file '$ARG' not found"
   "$VERIF/bin/simdrive" "${COMMON[@]}" -replay "$ARG"
